@@ -24,6 +24,15 @@ for fam in sorted(os.listdir(os.path.join(R, "fam"))):
         checks[pid] = c
 props = [json.loads(l)["id"] for l in open(os.path.join(R, "properties.jsonl"))]
 na_reasons = load("manifest/not_applicable.json") if os.path.exists(os.path.join(R, "manifest/not_applicable.json")) else {}
+# coordinator's overrides of what a family's part file claims (manifest/overrides.json: {Cxx: {category, text_prefix}})
+ov = load("manifest/overrides.json") if os.path.exists(os.path.join(R, "manifest/overrides.json")) else {}
+for pid, o in ov.items():
+    if pid in checks:
+        lc = checks[pid]["level_claimed"]
+        if "category" in o:
+            lc["category"] = o["category"]
+        if o.get("text_prefix") and not lc["text"].startswith(o["text_prefix"]):
+            lc["text"] = o["text_prefix"] + " " + lc["text"]
 m["checks"] = [checks[p] for p in props if p in checks]
 m["not_applicable"] = [dict(property_id=p, reason=na_reasons.get(p, "not yet built (no check registered); see DESIGN.md")) for p in props if p not in checks]
 m["engines"][0]["serves_properties"] = [p for p in props if p in checks]
